@@ -27,7 +27,7 @@ why = {
  "c12_r4b": "the guard sits in glyph_deltas, which iterates over a glyph's tuple variations (TupleVariationStore: out of memory)",
  "c16_r4b": "needs a REPEAT count byte of 255 (a run of 256 points); the packed-decoder harnesses place REPEAT with counts 0 and 1",
  "c18_r4a": "the nesting limit is checked inside the interpreter loop (not encoded)",
- "c06_r4a": "format 2 enumeration (256-iteration loop) does not finish inside the quick tier; the thorough-tier harness c06_format2_mappings_consistent is the one aimed at it",
+ "c06_r4a": "format 2 enumeration (256-iteration loop): the harness aimed at it (c06_format2_mappings_consistent) gives no answer in 600 s (quick) nor 2000 s (thorough)",
 }
 print("| seed | property | change (needs) | result | by |")
 print("|---|---|---|---|---|")
